@@ -28,7 +28,7 @@ import random
 from concurrent.futures import ThreadPoolExecutor, as_completed
 
 from gverif import tlc
-from gverif.common import SEED, die, ensure_repo, scratch
+from gverif.common import SEED, VERIF, die, ensure_repo, scratch
 from gverif.harness import Run
 from gverif.props import c18_render as R
 
@@ -42,11 +42,11 @@ TIERS = {
     # enum: groups of domains explored by one JVM each (domains, TLC workers, spellings per program); fixed: the same for
     # the Fix = all runs; witness: "all" = one run over the unrestricted domain, "each" = one run per trigger (Allow = {t});
     # ntarget: seeded random programs evaluated in target mode (tvariants spellings each); procs: replay processes
-    "quick": {"enum": [(["pair_q", "single3q"], 4, 1), (["triple_q", "single2"], 4, 1)], "fixed": [(["single2", "pair_w"], 2)],
+    "quick": {"enum": [(["pair_q", "single3q", "tree_q"], 4, 1), (["triple_q", "single2"], 4, 1)], "fixed": [(["single2", "pair_w"], 2)],
               "witness": "all", "ntarget": 3000, "tvariants": 1, "procs": 10, "jvms": 6},
     "thorough": {"enum": [(["pair_t"], 5, 1), (["triple_t"], 5, 1), (["single3"], 5, 1), (["pair_m", "single4"], 5, 1), (["pairhdr"], 5, 1),
-                          (["pair_q", "single3q", "triple_q", "single2"], 4, 2)],
-                 "fixed": [(["pair_q", "single3q", "triple_q", "single2", "pair_w"], 4), (["pair_m", "pairhdr"], 5)],
+                          (["tree_t"], 5, 1), (["pair_q", "single3q", "triple_q", "single2", "tree_q"], 4, 2)],
+                 "fixed": [(["pair_q", "single3q", "triple_q", "single2", "pair_w", "tree_q"], 4), (["pair_m", "pairhdr"], 5)],
                  "witness": "each", "ntarget": 50000, "tvariants": 2, "procs": 10, "jvms": 3},
 }
 
@@ -60,20 +60,32 @@ def tla_set(items) -> str:
 
 
 def assumed_fixed() -> list:
-    """VERIF_C18_FIX=tag,tag: the tree under test is assumed to carry the proposed fix of these triggers (used to
-    validate proposed_fixes/C18-*.diff on a scratch copy): the Impl transcription is evaluated with Fix = that set."""
-    raw = os.environ.get("VERIF_C18_FIX", "")
-    tags = [t for t in raw.replace(" ", "").split(",") if t]
+    """Triggers whose repaired behaviour is the baseline: the Impl transcription is evaluated with Fix = that set.
+
+    * findings.d/C18.json entries with "status": "fixed" (their "tag"): the fix is in the tree, the finding no longer
+      suppresses anything, the model predicts the repaired behaviour (no drift) and a regression is a VIOLATION;
+    * VERIF_C18_FIX=tag,tag adds triggers for one run (validation of proposed_fixes/ on a scratch copy)."""
+    tags = [t for t in os.environ.get("VERIF_C18_FIX", "").replace(" ", "").split(",") if t]
+    try:
+        with open(os.path.join(VERIF, "findings.d", "C18.json")) as fh:
+            for f in json.load(fh).get("findings", []):
+                if f.get("status") == "fixed" and f.get("tag"):
+                    tags.append(f["tag"])
+    except FileNotFoundError:
+        pass
+    tags = sorted(set(tags), key=lambda t: TAGS.index(t) if t in TAGS else -1)
     for t in tags:
         if t not in TAGS:
-            die(f"C18: unknown trigger {t!r} in VERIF_C18_FIX")
+            die(f"C18: unknown trigger {t!r} (VERIF_C18_FIX / findings.d/C18.json)")
+    if ("pinitF" in tags) != ("initF" in tags):
+        die("C18: triggers pinitF and initF are repaired by the same patch (C18-v2-2-init-false): mark both findings fixed or neither")
     return tags
 
 
 # ---- programs beyond the enumerated bounds (target mode) ------------------------------------------
 def random_chain(rnd: random.Random) -> list:
     chain = []
-    for _level in range(rnd.choice([2, 3, 3])):
+    for level in range(rnd.choice([2, 3, 3, 4])):
         dc = rnd.random() < 0.75
         hdr = {"dc": dc, "init": rnd.choice(["u", "u", "u", "T", "F"]) if dc else "u",
                "kw": rnd.choice(["u", "u", "T", "F"]) if dc else "u", "hand": rnd.random() < 0.15}
@@ -95,7 +107,9 @@ def random_chain(rnd: random.Random) -> list:
             fields.append({"name": n, "form": form})
         if sentinel_at == len(names):
             fields.append({"name": "_", "form": "kwonly"})
-        chain.append({"hdr": hdr, "fields": fields})
+        # base: mostly the previous class (chain), otherwise any earlier class (siblings, trees)
+        base = 0 if level == 0 else (level if rnd.random() < 0.55 else rnd.randrange(1, level + 1))
+        chain.append({"hdr": hdr, "base": base, "fields": fields})
     return chain
 
 
@@ -104,7 +118,7 @@ def chain_to_target(chain: list) -> list:
     out = []
     for c in chain:
         fields = [f if isinstance(f, dict) else {"name": f[0], "form": f[1]} for f in c["fields"]]
-        out.append({"hdr": {k: c["hdr"][k] for k in ("dc", "init", "kw", "hand", "assign")}, "fields": fields})
+        out.append({"hdr": {k: c["hdr"][k] for k in ("dc", "init", "kw", "hand", "assign")}, "base": c["base"], "fields": fields})
     return out
 
 
